@@ -2,6 +2,7 @@ package workload
 
 import (
 	"errors"
+	"reflect"
 	"strconv"
 	"strings"
 	"time"
@@ -129,6 +130,11 @@ func NoticeEvent(n int) bool { return n%3 == 1 }
 // resolveErr tells whether applying the selection hits a field that does not
 // resolve.
 func (w *SubWorld) Expect(sb *SimSub, n int) (msg string, resolveErr bool) {
+	if w.NilEvents && NilEvent(n) {
+		// no event value at all: the selection set applied to nothing is null,
+		// and the subscriber is still told
+		return "null", false
+	}
 	bad := w.BadEvents && BadEvent(n)
 	if w.Leaf != 0 {
 		// a leaf-typed subscription field: no selection set, the message is the
@@ -206,6 +212,10 @@ func NewEvent(id int) *Event {
 	return &Event{ID: id, Msg: "m" + strconv.Itoa(id), Tag: "t" + strconv.Itoa(id),
 		Nested: &Event{ID: id + 1000, Msg: "m" + strconv.Itoa(id+1000), Tag: "t" + strconv.Itoa(id+1000)}}
 }
+
+// NilEvent tells whether event n of a world with NilEvents is published
+// without a value (an untyped nil or a nil pointer).
+func NilEvent(n int) bool { return n%7 == 5 }
 
 // BadEvent tells whether event n is one whose msg field cannot be resolved
 // (worlds with BadEvents only): applying a subscriber's selection to it yields
@@ -356,7 +366,7 @@ func (s *SimSub) Send(value interface{}) error {
 	if fail {
 		res = "fail"
 	}
-	s.env.Event("Send", strconv.Itoa(s.ID)+"|"+res+"|"+CanonLite(value))
+	s.env.Event("Send", strconv.Itoa(s.ID)+"|"+res+"|"+canonSent(value))
 	// the delivery takes time: the end of the call is an event of its own, so
 	// that a second call into the same subscriber before it shows as an overlap
 	s.kept, s.keptCanon = value, CanonLite(value)
@@ -368,6 +378,15 @@ func (s *SimSub) Send(value interface{}) error {
 		return ErrSend
 	}
 	return nil
+}
+
+// canonSent renders a delivered value; a nil pointer (an event published as a
+// typed nil comes through as it is) is null on the wire, as encoding/json has it.
+func canonSent(v interface{}) string {
+	if rv := reflect.ValueOf(v); rv.IsValid() && rv.Kind() == reflect.Ptr && rv.IsNil() {
+		return "null"
+	}
+	return CanonLite(v)
 }
 
 // checkKept reports when the value of the previous delivery, which the
@@ -430,6 +449,8 @@ type SubWorld struct {
 	// subscribes again.
 	ReuseSub bool
 	keptSubs map[int]*ggql.Subscription
+	// NilEvents: the events with NilEvent(n) are published as nil.
+	NilEvents bool
 	// BadEvents makes the msg field of the events with BadEvent(n) fail to
 	// resolve (resolver error / value that cannot be coerced to String).
 	BadEvents bool
@@ -648,6 +669,12 @@ func (w *SubWorld) SubscribeExe(exe *ggql.Executable, op string, sid int) string
 
 // Publish publishes event n on topic.
 func (w *SubWorld) Publish(topic string, n int) (int, error) {
+	if w.NilEvents && NilEvent(n) {
+		if n%2 == 0 {
+			return w.Root.AddEvent(topic, (*Event)(nil))
+		}
+		return w.Root.AddEvent(topic, nil)
+	}
 	var ev interface{}
 	bad := w.BadEvents && BadEvent(n)
 	if w.Leaf != 0 {
